@@ -9,17 +9,18 @@ Local Arguments content_of : simpl never.
 Local Arguments alloc : simpl never.
 
 (* ------------------------------------------------------------------------- *)
-(* Bucket.get's rounding, for offsets that are whole milliseconds *)
+(* Bucket.get's rounding: on the UTC reading of the edge (49e3288), hence for every utcoffset
+   (before that commit: for offsets that are whole milliseconds) *)
 
-Lemma round_start_floor : forall d, snd d mod 1000 = 0 -> round_start d = 1000 * (fst d / 1000).
+Lemma round_start_floor : forall d, round_start d = 1000 * (fst d / 1000).
 Proof.
-  intros [u o]; unfold round_start, us_field; cbn [fst snd]; intros H.
+  intros [u o]; unfold round_start, to_utc, us_field; cbn [fst snd].
   Z.div_mod_to_equations. lia.
 Qed.
 
-Lemma round_end_ceil : forall d, snd d mod 1000 = 0 -> round_end d = 1000 * (fst d / 1000) + 1000.
+Lemma round_end_ceil : forall d, round_end d = 1000 * (fst d / 1000) + 1000.
 Proof.
-  intros [u o]; unfold round_end, us_field; cbn [fst snd]; intros H.
+  intros [u o]; unfold round_end, to_utc, us_field; cbn [fst snd].
   Z.div_mod_to_equations. lia.
 Qed.
 
